@@ -4,6 +4,7 @@ import (
 	"crypto/sha256"
 	"encoding/hex"
 	"fmt"
+	"regexp"
 	"strings"
 
 	"github.com/vektah/gqlparser/v2/ast"
@@ -166,7 +167,36 @@ func dataSite(want, got string) string {
 	return "different-data"
 }
 
+var idxSuffix = regexp.MustCompile(`\[\d+\]$`)
+
+// collapsed rewrites the model's per-element "gqlgen" errors (path ending in an index) to one
+// error at the list's path, which is how gqlgen reports null elements of a list of non-null
+// SCALARS (it has no per-element field context there).
+func collapsed(want, got []refexec.Err) []refexec.Err {
+	gotPaths := map[string]bool{}
+	for _, g := range got {
+		gotPaths[g.Path] = true
+	}
+	seen := map[string]bool{}
+	var out []refexec.Err
+	for _, e := range want {
+		// element errors that gqlgen did report with their index (object lists) stay as they are
+		if e.Class == "gqlgen" && idxSuffix.MatchString(e.Path) && !gotPaths[e.Path] {
+			e.Path = idxSuffix.ReplaceAllString(e.Path, "")
+			if seen[e.Path] {
+				continue
+			}
+			seen[e.Path] = true
+		}
+		out = append(out, e)
+	}
+	return out
+}
+
 func errSite(want, got []refexec.Err) string {
+	if CompareErrs(collapsed(want, got), got) == "" {
+		return "scalar-list-element-errors-collapsed"
+	}
 	switch {
 	case len(got) > len(want):
 		return "extra-errors"
@@ -254,7 +284,6 @@ func runC06(rc *core.RunCtx) {
 	rc.Res.Sig = sigOf(v.Name, op.Query, plan.Seed, plan.NullPM, plan.ErrPM, plan.MaxList, strings.Join(sigs, ";"))
 	rc.Res.Sample = map[string]any{"variant": v.Name, "op": op.Query, "plan": planDesc(plan), "schedules": sigs, "data": first.Payloads[0].Raw}
 }
-
 
 func copyPlan(p *refexec.Plan) *refexec.Plan {
 	c := *p
